@@ -162,6 +162,20 @@ func ruleKeyReadSet(r *Run) {
 	// operation name): whatever the planner reads of it decides the plan, so the key has to
 	// read it too (a plan that depends on the VALUES of variables — @skip/@include decided at
 	// plan time — cannot be shared between requests with other values)
+	// the planning context itself: Schema and TypeURLMap belong to the gateway (the same for
+	// every request), Operation and Request are compared field by field above; any other field
+	// is a further per-request input (third audit: a `Variables` field filled from the request)
+	constCtx := map[string]bool{"planner.PlanningContext.Schema": true, "planner.PlanningContext.TypeURLMap": true, "planner.PlanningContext.Operation": true, "planner.PlanningContext.Request": true}
+	for _, k := range keys {
+		if !strings.HasPrefix(k, "planner.PlanningContext.") || constCtx[k] {
+			continue
+		}
+		if hr[k] {
+			r.OK(rule, fnName(hash), "planner reads "+k, r.P.pos(hash.Pos()), "also read when the cache key is computed")
+		} else {
+			r.Bad(rule, fnName(hash), "planner reads "+k, r.P.pos(hash.Pos()), "the plan depends on "+k+", a field of the planning context that is neither a constant of the gateway nor read when the cache key is computed: two requests that differ only there share one cached plan")
+		}
+	}
 	for _, k := range keys {
 		if !strings.HasPrefix(k, "requests.Request.") {
 			continue
